@@ -51,6 +51,17 @@ def gdb_session(seed, n, quit_at_end=True, cmd_rate=0.2, destroy_rate=0.12, init
     return {'init': init, 'events': ev}
 
 
+def gdb_batch(ctx, rep, prop_relevant, n, salt, **kw):
+    """the same property through GDB mode: sessions of hits, destructions and `wl ...` commands run by the real plugin (E3-lite),
+    validated by TraceGdb, judged on the property's own aspects"""
+    def it():
+        for k in range(n):
+            opts = dict(cmd_rate=0.25, destroy_rate=0.04, init_break=0.3)
+            opts.update(kw)
+            yield gdb_session(ctx.seed * salt + k, ctx.rnd.randint(20, 50), quit_at_end=False, **opts), {'dialect': 'new'}, 'gdb-mode'
+    sessionprop.run_sessions(ctx, rep, it(), prop_relevant, runner=runner, spec=SPEC, label='GDB mode')
+
+
 def model_traces(ctx, rep, sample, maxlen):
     seqs, r = mcreplay.behaviours(rep, 'MC_Gdb.tla', 'MC_Gdb.cfg', 'GDB events on two addresses / two threads with commands', override={'MaxLen': maxlen})
     total = len(seqs)
